@@ -75,6 +75,25 @@ Theorem C15_callback_args : forall (c : ssh_cfg) (o : ssh_oracle),
 Proof. exact c15_callback_args. Qed.
 Print Assumptions C15_callback_args.
 
+(* Several sessions of one process, the known_hosts file changing between them.  [c_known_hosts] of each
+   configuration is the content of the file at the time of THAT connect (Model/Auth.v, [ssh_history]).  Whatever
+   the earlier and later sessions of the history were (their files, keys, callbacks, outcomes), the connect at
+   position [length pre] is exactly the connect a fresh process would make on that file content: with verification
+   on every sensitive event follows an acceptance justified by ITS configuration (its file content, its pin, its
+   callback), and when the presented key is not justified by them nothing sensitive happens and the unknown-host
+   (or earlier SSH) error is raised -- a key that an earlier session's file listed does not count. *)
+Theorem C15_fresh_judgement : forall (pre post : list (ssh_cfg * ssh_oracle)) (c : ssh_cfg) (o : ssh_oracle) (r : (trace * result)%type),
+  nth_error (ssh_history (pre ++ (c, o) :: post)) (length pre) = Some r ->
+  r = ssh_connect c o /\
+  (c_verify c = true ->
+     preceded_by sensitive is_accept (fst r) /\ (forall h, In (HostKeyAccepted h) (fst r) -> justified c o h)) /\
+  (c_verify c = true -> unjustified c o ->
+     none_of sensitive (fst r) /\
+     (snd r = Exn (SSHUnknownHost HHost (o_server_key o)) \/ snd r = Exn SSHError) /\
+     (c_pin c <> PinBad -> o_kex_ok o = true -> snd r = Exn (SSHUnknownHost HHost (o_server_key o)))).
+Proof. exact c15_fresh_judgement. Qed.
+Print Assumptions C15_fresh_judgement.
+
 (* Unconditionally: every session event is preceded by a granted authentication request, and
    a successful connect sent its hello after one. *)
 Theorem C15_session_after_auth : forall (c : ssh_cfg) (o : ssh_oracle),
@@ -208,4 +227,14 @@ Proof. vm_compute. reflexivity. Qed.
 Example C15_ex_tls_fail :
   tls_connect (ex_tcfg true) (ex_tor false)
   = ([TlsLoadCert; TlsLoadCA; TlsConnect; Handshake true true false], Exn TLSErr).
+Proof. vm_compute. reflexivity. Qed.
+
+(* the host is re-keyed between two sessions of one process: known_hosts listed kA, now lists kB; a server
+   that still shows kA was taken to authentication by the first session and is refused by the second, while
+   the server with the new key is accepted by a third *)
+Example C15_ex_history_rekeyed :
+  map snd (ssh_history [(ex_cfg [(HHost, kA)] PinAbsent false false, ex_or kA false [false; false; false]);
+                        (ex_cfg [(HHost, kB)] PinAbsent false false, ex_or kA false [true]);
+                        (ex_cfg [(HHost, kB)] PinAbsent false false, ex_or kB false [true])])
+  = [Exn Authentication; Exn (SSHUnknownHost HHost kA); Ok].
 Proof. vm_compute. reflexivity. Qed.
